@@ -544,6 +544,7 @@ pub fn generate_c18(seed: u64, run: u64, corpus: &Corpus, tier: Tier, stats: &mu
     let mut case = base_case("C18", seed, run, &opts, mode, vec![]);
     let mut shape = vec![];
     let mut fail_kinds = vec![];
+    let mut timing_sensitive = false;
     for i in 0..n {
         let dir = rng.below(3);
         let name = if rng.chance(1, 6) { "same".to_string() } else { format!("u{i}") };
@@ -560,20 +561,32 @@ pub fn generate_c18(seed: u64, run: u64, corpus: &Corpus, tier: Tier, stats: &mu
                 (b, rf.enc, rf.bom_len)
             }
             _ => {
-                let class = if rng.chance(1, 8) { SizeClass::Large } else { gen_class(&mut rng, Tier::Quick) };
-                let max = if class == SizeClass::Large && rng.chance(3, 4) { p.max_bytes.min(48 * 1024) } else { p.max_bytes };
-                let mut content = gen_text(&mut rng, corpus, class, max);
-                if let Some(j) = dup {
-                    // same first bytes / same length as a sibling
-                    let sib = String::from_utf8_lossy(&case.files[j].bytes).to_string();
-                    let keep: String = sib.chars().take(64).collect();
-                    content.text = format!("{keep}{}", content.text);
+                let mut attempt = 0;
+                loop {
+                    let class = if rng.chance(1, 8) { SizeClass::Large } else { gen_class(&mut rng, Tier::Quick) };
+                    let max = if class == SizeClass::Large && rng.chance(3, 4) { p.max_bytes.min(48 * 1024) } else { p.max_bytes };
+                    let mut content = gen_text(&mut rng, corpus, class, max);
+                    if let Some(j) = dup {
+                        // same first bytes / same length as a sibling
+                        let sib = String::from_utf8_lossy(&case.files[j].bytes).to_string();
+                        let keep: String = sib.chars().take(64).collect();
+                        content.text = format!("{keep}{}", content.text);
+                    }
+                    let decorate = rng.chance(1, 3);
+                    let bom = gen_bom_choice(&mut rng);
+                    let e = encode_for(&mut rng, opts.encoding(), &content.text, bom, decorate);
+                    let bl = if e.has_bom { codec::bom_for(e.enc).unwrap().len() } else { 0 };
+                    // contents the pure formatter chokes on by itself are replaced
+                    let probe_case = base_case("C18", seed, run, &opts, Mode::StdinStdout, vec![SimFile::new(&path, e.bytes.clone())]);
+                    let ra = child::run_reference(&probe_case.stdin_reference(0));
+                    stats.invocations += 1;
+                    attempt += 1;
+                    if (ra.exit.is_normal() && ra.wall_ms <= child::prescreen_slow_ms()) || attempt == 3 {
+                        break (e.bytes, e.enc, bl);
+                    }
+                    stats.probe("content_discarded_by_prescreen");
+                    timing_sensitive = true;
                 }
-                let decorate = rng.chance(1, 3);
-                let bom = gen_bom_choice(&mut rng);
-                let e = encode_for(&mut rng, opts.encoding(), &content.text, bom, decorate);
-                let bl = if e.has_bom { codec::bom_for(e.enc).unwrap().len() } else { 0 };
-                (e.bytes, e.enc, bl)
             }
         };
         let mut f = SimFile::new(&path, bytes);
@@ -650,7 +663,7 @@ pub fn generate_c18(seed: u64, run: u64, corpus: &Corpus, tier: Tier, stats: &mu
         case.knobs.avx2 = false;
     }
     if rng.chance(1, 30) {
-        case.extra_args = vec!["--cursor".into(), "0,5".into()];
+        case.extra_args = vec!["--cursor=0,5".into()];
     }
     *stats.by_mode.entry(mode.name().to_string()).or_insert(0) += 1;
     *stats.by_policy.entry(policy_name(case.policy.kind).to_string()).or_insert(0) += 1;
@@ -677,7 +690,7 @@ pub fn generate_c18(seed: u64, run: u64, corpus: &Corpus, tier: Tier, stats: &mu
         opts.key()
     );
     Generated {
-        timing_sensitive: false,
+        timing_sensitive,
         cases: vec![case],
         describe,
     }
